@@ -93,6 +93,11 @@ CHECKS = {
          "Pair shuffle on Ed25519 and P-256: every permutation for k=2..4 (thorough 5; 8 and 12 with fixed permutations) x 3 input variants (random, small, duplicate ciphertexts): honest proof verifies; per slot: X/Y replaced, duplicated, scaled, summed with its neighbour, swapped, input replaced; output extended/shortened; G/H replaced; proof of another instance; proof bytes flipped / truncated: accepted only if the model says the output is a re-encryption permutation and nothing else changed. Forging strategy F1 builds a fresh transcript for M in {I+E01, I+E10, diag(2,1..)}: must be rejected. Simple shuffle: every permutation, y entries replaced/duplicated/unscaled. Biffle: 8 streams (both bits), slot replacement/duplication, proof alterations. Sequence shuffle NQ=1..3: all permutations reachable through seeded streams (k<=3), slot replacement/duplication per sequence.",
          "Trusted: soundness only against the enumerated alterations and the F1 strategy; the forger mirrors the package's transcript layout.",
          "DESIGN.md §4 C15"),
+ "C18": ("model_checking",
+         "lock-step execution of all straight-line programs of depth <= 2 over a product of implementations of the same group, compared value by value with each other and with an affine math/big curve model; transcript comparison across binaries built with different tags",
+         "Ed25519 constant-time, Ed25519+AllowVarTime and edwards25519vartime pairwise and against an affine twisted-Edwards model; P-256, bn256.G1, bn254.G1 against an affine Weierstrass model; kilic = circl = gnark on G1, G2, GT, scalar arithmetic, hash-to-curve outputs, 36 pairings e(aB1,bB2) and 24 BLS signatures on both groups; Ed25519 base multiplication vs crypto/ed25519 key derivation (24 seeds). ~1,700 expressions per group: seeds {O,B,s*B,Mul(s,nil),Hash(m),decoded forms}, all Add/Sub/Neg/Mul over them, results fed back once, accumulator (in-place) forms. Build variants: one transcript program (~29k lines: all groups, pairings, hashes, signatures, SetBytes at odd lengths, Pick) produced by the binaries built with no tag, -tags generic and -tags constantTime and compared on their common lines (28.9k / 5.9k).",
+         "Trusted: math/big models with transcribed parameters and conventional base points; only values computed from reduced scalars and messages are compared; arm64 assembly absent.",
+         "DESIGN.md §4 C18"),
 }
 
 NOT_YET = "check not built yet in this round (planned: see DESIGN.md §4)"
